@@ -8,12 +8,13 @@ invariants of the contract file.
 from __future__ import annotations
 
 import ast
+import os
 from dataclasses import dataclass
 from typing import Any
 
 import z3
 
-from . import arith, extract
+from . import arith, extract, solve
 from .spec import Builtin, Inline, Spec
 from .values import (
     Clause,
@@ -40,6 +41,7 @@ from .values import (
 )
 
 EMPTY_STR = z3.Function("is_empty_str", z3.IntSort(), z3.BoolSort())
+OBJ_FALSY = z3.Function("object_is_falsy", z3.IntSort(), z3.BoolSort())  # bool(x) is False for an object of a class the contract does not name
 
 BINOPS = {
     ast.Add: "+", ast.Sub: "-", ast.Mult: "*", ast.FloorDiv: "//", ast.Mod: "%", ast.LShift: "<<",
@@ -108,7 +110,7 @@ class Executor:
                 s.add(c)
             if extra is not None:
                 s.add(extra)
-            r = s.check()
+            r = solve.check(s, 6)
             if r == z3.unknown and self._retry_budget > 0:
                 # the quick budget (1 s) is easily exceeded when all cores are busy: a patient retry keeps path pruning (and with it the
                 # vacuity probe) independent of machine load; the total time spent on retries is capped per unit
@@ -116,7 +118,7 @@ class Executor:
 
                 t0 = _t.time()
                 s.set("timeout", 6000)
-                r = s.check()
+                r = solve.check(s, 15)
                 s.set("timeout", 1000)
                 self._retry_budget -= _t.time() - t0
         finally:
@@ -172,6 +174,12 @@ class Executor:
             if v.cls == "str":
                 # a str is falsy when empty: `if s:` is NOT `s is not None`
                 return z3.And(v.z != 0, z3.Not(EMPTY_STR(v.z)))
+            if v.cls and extract.class_overrides_truthiness(v.cls):
+                # the live class (or a base) defines __bool__ / __len__: `if x:` is not `x is not None`
+                raise Unsupported(f"truthiness of a {v.cls}: the class defines __bool__/__len__ (the contract must model it with __truthy__)")
+            if not v.cls and os.environ.get("VERIF_UNTYPED_TRUTHY") != "legacy":
+                # an object whose class the contract does not name may define __bool__ / __len__: `if x:` is not `x is not None`
+                return z3.And(v.z != 0, z3.Not(OBJ_FALSY(v.z)))
             return z3.simplify(v.z != 0)
         if isinstance(v, (VGlobal, VOpaque)):
             raise Unsupported(f"truthiness of {v}")
@@ -584,7 +592,12 @@ class Executor:
         if kind == "bool":
             return VBool(st.sel(attr, base.z))
         if kind == "ref":
-            r = VRef(st.sel(attr, base.z), parts[1] if len(parts) > 1 else None)
+            cls = parts[1] if len(parts) > 1 else None
+            if cls is None:
+                # a polymorphic field (e.g. `parent`): the contract may type it from the owner's class
+                h = self.spec.globals.get("__field_cls__")
+                cls = h(base.cls, attr) if h is not None else None
+            r = VRef(st.sel(attr, base.z), cls)
             st.assume_allocated(r.z)
             return r
         if kind == "seq":
